@@ -780,6 +780,16 @@ func main() {
 		}
 		shapes = append(shapes, []byte{0x4c, 0x00}, []byte{0x4d, 0x00, 0x00}, []byte{0x4e, 0, 0, 0, 0}, []byte{0x4c, 0x00, 0x4c, 0x00}, []byte{0x4c, 0x00, 0x4d, 0x00, 0x00, 0x4e, 0, 0, 0, 0},
 			[]byte{0x6a, 0x4c, 0x00}, []byte{0x00, 0x6a, 0x4c, 0x00, 0x03, 1, 2, 3, 0x51}, []byte{0x4c, 0x00, 0x51}, []byte{0x00}, []byte{0x00, 0x00}, []byte{0x4c}, []byte{0x05, 0x01}, []byte{0x4d, 0xff}, []byte{0x51}, []byte{0x6a}, []byte{0x00, 0x6a})
+		// push headers whose declared length sits at the top of the length field's range (header + length wraps in
+		// 8 / 16 / 32 bits), with nothing, a little and some data after them, bare and behind the data-script prefixes
+		for _, hdr := range [][]byte{{0x4c, 0xff}, {0x4c, 0xfe}, {0x4d, 0xff, 0xff}, {0x4d, 0xfd, 0xff}, {0x4e, 0xff, 0xff, 0xff, 0xff}, {0x4e, 0xfe, 0xff, 0xff, 0xff},
+			{0x4e, 0xfd, 0xff, 0xff, 0xff}, {0x4e, 0xfc, 0xff, 0xff, 0xff}, {0x4e, 0xfb, 0xff, 0xff, 0xff}, {0x4e, 0xfa, 0xff, 0xff, 0xff}, {0x4e, 0xff, 0xff, 0xff, 0x7f}, {0x4e, 0x00, 0x00, 0x00, 0x80}} {
+			for _, pre := range [][]byte{{}, {0x00, 0x6a}, {0x6a}, {0x76, 0xa9}} {
+				for _, after := range [][]byte{{}, {0x01}, {1, 2, 3, 4, 5, 6, 7}} {
+					shapes = append(shapes, append(append(append([]byte{}, pre...), hdr...), after...))
+				}
+			}
+		}
 		for i, sh := range shapes {
 			tx := bt.NewTx()
 			in := &bt.Input{PreviousTxOutIndex: uint32(i), SequenceNumber: 0xffffffff}
